@@ -22,6 +22,7 @@ structure Tables where
   selinux0 : List Str
   selinux31 : List Str
   windows : Str
+  deriving DecidableEq
 
 def appArmorAnnKeyPrefix : Str := b!"container.apparmor.security.beta.kubernetes.io/"
 def seccompPodAnnKey : Str := b!"seccomp.security.alpha.kubernetes.io/pod"
@@ -31,9 +32,10 @@ def Pod.ann (p : Pod) (k : Str) : Option Str := (p.annotations.find? (fun kv => 
 def Pod.windowsOS (T : Tables) (p : Pod) : Bool := p.os == some T.windows
 def relaxed (relax : Bool) (p : Pod) : Bool := relax && p.hostUsers == some false
 
-def mk (pod : Bool) (cs cs2 vols : List Str) (values flags : List Str := []) : CheckOut :=
+def mk (pod : Bool) (cs cs2 vols : List Str) (values flags extra : List Str := []) : CheckOut :=
   if pod || !cs.isEmpty || !cs2.isEmpty || !vols.isEmpty || !flags.isEmpty then
-    { allowed := false, pod := pod, containers := cs, containers2 := cs2, volumes := vols, values := values, flags := flags }
+    { allowed := false, pod := pod, containers := cs, containers2 := cs2, volumes := vols, values := values, flags := flags,
+      extra := extra }
   else .ok
 
 /-! ## baseline -/
@@ -46,7 +48,8 @@ def hostNamespaces_1_0 (p : Pod) : CheckOut :=
     (if p.hostPID then [b!"hostPID=true"] else []) ++ (if p.hostIPC then [b!"hostIPC=true"] else []))
 
 def cHostPorts (c : Container) : Bool := c.hostPorts.any (· != 0)
-def hostPorts_1_0 (p : Pod) : CheckOut := mk false (offenders p.visit cHostPorts) [] []
+def hostPorts_1_0 (p : Pod) : CheckOut :=
+  mk false (offenders p.visit cHostPorts) [] [] (p.visit.flatMap (fun c => (c.hostPorts.filter (· != 0)).map itoaInt))
 
 def vHostPath (v : Volume) : Bool := v.sources.contains .hostPath
 def hostPathVolumes_1_0 (p : Pod) : CheckOut := mk false [] [] ((p.volumes.filter vHostPath).map (·.name))
@@ -55,7 +58,10 @@ def cCapsBaseline (T : Tables) (c : Container) : Bool :=
   match c.get (·.caps) with
   | some k => k.add.any (fun x => !T.capsBaseline.contains x)
   | none => false
-def capabilitiesBaseline_1_0 (T : Tables) (p : Pod) : CheckOut := mk false (offenders p.visit (cCapsBaseline T)) [] []
+def capsAdd (c : Container) : List Str := match c.get (·.caps) with | some k => k.add | none => []
+def capabilitiesBaseline_1_0 (T : Tables) (p : Pod) : CheckOut :=
+  mk false (offenders p.visit (cCapsBaseline T)) [] []
+    (p.visit.flatMap (fun c => (capsAdd c).filter (fun x => !T.capsBaseline.contains x)))
 
 def badOpt (ok : Str → Bool) : Option Str → Bool
   | some t => !ok t
@@ -67,33 +73,50 @@ def goodOpt (ok : Str → Bool) : Option Str → Bool
 
 def appArmorAnnOK (T : Tables) (v : Str) : Bool := T.appArmorAnnValues.contains v || T.appArmorAnnPrefix.isPrefixOf v
 def badAppArmorAnn (T : Tables) (kv : Str × Str) : Bool := appArmorAnnKeyPrefix.isPrefixOf kv.1 && !appArmorAnnOK T kv.2
+def badVal (ok : Str → Bool) (o : Option Str) : List Str := match o with | some t => if ok t then [] else [t] | none => []
+def annText (kv : Str × Str) : Str := kv.1 ++ b!"=" ++ goQuote kv.2
 def appArmorProfile_1_0 (T : Tables) (p : Pod) : CheckOut :=
   let ok := fun t => T.appArmorTypes.contains t
   mk (badOpt ok (p.get (·.appArmorType))) (offenders p.visit (fun c => badOpt ok (c.get (·.appArmorType)))) [] []
-    [] ((p.annotations.filter (badAppArmorAnn T)).map (·.1))
+    (badVal ok (p.get (·.appArmorType)) ++ p.visit.flatMap (fun c => badVal ok (c.get (·.appArmorType))))
+    ((p.annotations.filter (badAppArmorAnn T)).map annText)
 
 def seLinuxOK (types : List Str) (o : SELinux) : Bool := types.contains o.type && o.user.isEmpty && o.role.isEmpty
 def badSELinux (types : List Str) : Option SELinux → Bool
   | some o => !seLinuxOK types o
   | none => false
+def seLinuxAll (p : Pod) : List SELinux :=
+  (match p.get (·.seLinux) with | some o => [o] | none => []) ++
+  p.visit.flatMap (fun c => match c.get (·.seLinux) with | some o => [o] | none => [])
 def seLinuxOptions (types : List Str) (p : Pod) : CheckOut :=
   mk (badSELinux types (p.get (·.seLinux))) (offenders p.visit (fun c => badSELinux types (c.get (·.seLinux)))) [] []
+    (((seLinuxAll p).filter (fun o => !types.contains o.type)).map (·.type)) []
+    ((if (seLinuxAll p).any (fun o => !o.user.isEmpty) then [b!"user may not be set"] else []) ++
+     (if (seLinuxAll p).any (fun o => !o.role.isEmpty) then [b!"role may not be set"] else []))
 def seLinuxOptions_1_0 (T : Tables) := seLinuxOptions T.selinux0
 def seLinuxOptions_1_31 (T : Tables) := seLinuxOptions T.selinux31
 
 def procMount_1_0 (T : Tables) (relax : Bool) (p : Pod) : CheckOut :=
   if relaxed relax p then .ok else
   mk false (offenders p.visit (fun c => badOpt (· == T.procMountDefault) (c.get (·.procMount)))) [] []
+    (p.visit.flatMap (fun c => badVal (· == T.procMountDefault) (c.get (·.procMount))))
 
 def seccompAnnOK (T : Tables) (v : Str) : Bool := T.seccompAnnValues.contains v || T.seccompAnnPrefix.isPrefixOf v
 def seccompBaseline_1_0 (T : Tables) (p : Pod) : CheckOut :=
   let ok := seccompAnnOK T
   mk (badOpt ok (p.ann seccompPodAnnKey))
      (offenders p.visit (fun c => badOpt ok (p.ann (seccompContainerAnnPrefix ++ c.name)))) [] []
+     ((badVal ok (p.ann seccompPodAnnKey)).map (fun v => annText (seccompPodAnnKey, v)) ++
+      p.visit.flatMap (fun c => (badVal ok (p.ann (seccompContainerAnnPrefix ++ c.name))).map
+        (fun v => annText (seccompContainerAnnPrefix ++ c.name, v))))
 
+def seccompBadValues (T : Tables) (p : Pod) : List Str :=
+  let ok := fun t => T.seccompTypes.contains t
+  badVal ok (p.get (·.seccompType)) ++ p.visit.flatMap (fun c => badVal ok (c.get (·.seccompType)))
 def seccompBaseline_1_19 (T : Tables) (p : Pod) : CheckOut :=
   let ok := fun t => T.seccompTypes.contains t
   mk (badOpt ok (p.get (·.seccompType))) (offenders p.visit (fun c => badOpt ok (c.get (·.seccompType)))) [] []
+    (seccompBadValues T p)
 
 def sysctls (allowed : List Str) (p : Pod) : CheckOut :=
   let bad := (match p.sc with | some sc => sc.sysctls | none => []).filter (fun s => !allowed.contains s)
@@ -122,11 +145,25 @@ def cAddsForbidden (T : Tables) (c : Container) : Bool :=
   | none => false
 def capabilitiesRestricted_1_22 (T : Tables) (p : Pod) : CheckOut :=
   mk false (offenders p.visit (cMissingDropAll T)) (offenders p.visit (cAddsForbidden T)) []
+    (p.visit.flatMap (fun c => (capsAdd c).filter (fun x => !T.capsRestrictedAdd.contains x)))
 def capabilitiesRestricted_1_25 (T : Tables) (p : Pod) : CheckOut :=
   if p.windowsOS T then .ok else capabilitiesRestricted_1_22 T p
 
 def vRestricted (T : Tables) (v : Volume) : Bool := !v.sources.any (T.volAllowed.contains ·)
-def restrictedVolumes_1_0 (T : Tables) (p : Pod) : CheckOut := mk false [] [] ((p.volumes.filter (vRestricted T)).map (·.name))
+/-- the second switch of restrictedVolumes_1_0: the first non-nil source in this order names the type -/
+def badVolKinds : List (VolKind × Str) :=
+  [(.hostPath, b!"hostPath"), (.gcePersistentDisk, b!"gcePersistentDisk"), (.awsElasticBlockStore, b!"awsElasticBlockStore"),
+   (.gitRepo, b!"gitRepo"), (.nfs, b!"nfs"), (.iscsi, b!"iscsi"), (.glusterfs, b!"glusterfs"), (.rbd, b!"rbd"),
+   (.flexVolume, b!"flexVolume"), (.cinder, b!"cinder"), (.cephfs, b!"cephfs"), (.flocker, b!"flocker"), (.fc, b!"fc"),
+   (.azureFile, b!"azureFile"), (.vsphereVolume, b!"vsphereVolume"), (.quobyte, b!"quobyte"), (.azureDisk, b!"azureDisk"),
+   (.photonPersistentDisk, b!"photonPersistentDisk"), (.portworxVolume, b!"portworxVolume"), (.scaleIO, b!"scaleIO"),
+   (.storageos, b!"storageos")]
+def volTypeName (v : Volume) : Str :=
+  match badVolKinds.find? (fun kn => v.sources.contains kn.1) with
+  | some kn => kn.2
+  | none => b!"unknown"
+def restrictedVolumes_1_0 (T : Tables) (p : Pod) : CheckOut :=
+  mk false [] [] ((p.volumes.filter (vRestricted T)).map (·.name)) ((p.volumes.filter (vRestricted T)).map volTypeName)
 
 def runAsNonRoot_1_0 (relax : Bool) (p : Pod) : CheckOut :=
   if relaxed relax p then .ok else
@@ -148,14 +185,14 @@ def seccompRestricted_1_19 (T : Tables) (p : Pod) : CheckOut :=
   let podSet : Bool := goodOpt ok (p.get (·.seccompType))
   let expl := offenders p.visit (fun c => badOpt ok (c.get (·.seccompType)))
   let impl := offenders p.visit (fun c => (c.get (·.seccompType)).isNone && !podSet)
-  if podBad || !expl.isEmpty then { allowed := false, pod := podBad, containers := expl }
+  if podBad || !expl.isEmpty then { allowed := false, pod := podBad, containers := expl, values := seccompBadValues T p }
   else if !impl.isEmpty then { allowed := false, containers2 := impl }
   else .ok
 def seccompRestricted_1_25 (T : Tables) (p : Pod) : CheckOut :=
   if p.windowsOS T then .ok else seccompRestricted_1_19 T p
 
-theorem mk_allowed (pod : Bool) (cs cs2 vols values flags : List Str) :
-    (mk pod cs cs2 vols values flags).allowed = true ↔ pod = false ∧ cs = [] ∧ cs2 = [] ∧ vols = [] ∧ flags = [] := by
+theorem mk_allowed (pod : Bool) (cs cs2 vols values flags extra : List Str) :
+    (mk pod cs cs2 vols values flags extra).allowed = true ↔ pod = false ∧ cs = [] ∧ cs2 = [] ∧ vols = [] ∧ flags = [] := by
   unfold mk
   split
   · rename_i h
